@@ -187,7 +187,7 @@ def boundary_cfgs(thorough):
     if thorough:
         out += [
             ("helmholtz", "magnetic_field", ("T2", "T2"), rb, sb, 2, True),
-            ("helmholtz", "magnetic_field", "T9", ("RWG", 0, seg([1, 2], include_boundary_dofs=True)), ("RWG", 0, seg([0, 1], include_boundary_dofs=True)), 1, False),
+            ("helmholtz", "magnetic_field", "T9", ("RWG", 0, seg([1, 2], include_boundary_dofs=True)), ("SNC", 0, seg([0, 1], include_boundary_dofs=True)), 1, False),
             ("helmholtz", "magnetic_field", "T4", ("RWG", 0, {}), ("SNC", 0, {}), 1, False),
         ]
     if thorough:
@@ -483,5 +483,6 @@ def concrete(family, params):
         pd = potf(space, pts, *args).evaluate(gf)
         pf = potf(space, pts, *args, assembler="fmm").evaluate(gf)
         gap = float(np.max(np.abs(pf - pd)) / np.max(np.abs(pd)))
-        return {"gap": gap if gap > 1e-10 else 0.0, "max_rel_diff": gap, "key": "fmm_pot/%s/%s" % (mode, params["op"])}
+        segkey = "/segment-space" if ("segments" in sp[2] or "support_elements" in sp[2]) else ""
+        return {"gap": gap if gap > 1e-10 else 0.0, "max_rel_diff": gap, "key": "fmm_pot/%s/%s%s" % (mode, params["op"], segkey)}
     raise KeyError(family)
